@@ -19,13 +19,14 @@ import (
 // suite "promql" (C09, results layer of metric queries):
 //   gkey by|without <fields> <hex seriesId>
 //   agg <fn> by|without <fields> step=<s> M=<hex name> S=<series>|<series>…
+//   agg2 <fn1> by|without <fields1> <fn2> by|without <fields2> step=<s> M=<hex name> S=…   (second stage: ApplyAggregationToResults)
 //   fields ::= - | <hex>,<hex>,…   series ::= <labels>@<pts>   labels ::= - | <hexk>=<hexv>,…   pts ::= - | <ts>:<int>,…
 // Exec builds the series ids with the real tsidtracker, feeds the real mresults.Series / MetricsResult,
-// runs DownsampleResults + AggregateResults and prints Results canonically.
+// runs DownsampleResults + AggregateResults (+ ApplyAggregationToResults) and prints Results canonically.
 
 func init() {
 	register(&Suite{Name: "promql", Gen: genC09, Exec: execC09,
-		Rule: "1–6 series × 0–5 labels (label names suffix/prefix-related, values with , : { } = and embedded name: text), by/without/all/no labels, steps 1..300 with timestamps on and off the grid incl. several samples per bucket, integer values; sum/min/max/avg/count through tsidtracker.BulkAdd → Series.AddEntry → DownsampleResults → AggregateResults; plus getAggSeriesId on arbitrary id strings; non-trivial = ≥ 2 series and ≥ 1 result point (agg) or a key different from the id (gkey)"})
+		Rule: "1–6 series × 0–5 labels (label names suffix/prefix-related, values with , : { } = and embedded name: text), by/without/all/no labels, steps 1..300 with timestamps on and off the grid incl. several samples per bucket, integer values; sum/min/max/avg/count through tsidtracker.BulkAdd → Series.AddEntry → DownsampleResults → AggregateResults (→ ApplyAggregationToResults for nested aggregations); plus getAggSeriesId on arbitrary id strings; non-trivial = ≥ 2 series and ≥ 1 result point (agg) or a key different from the id (gkey)"})
 }
 
 type c09Series struct {
@@ -202,6 +203,11 @@ func c09ParseAgg(f []string) (*c09Op, bool) {
 
 // runs the real results layer; fn may differ from op.fn (the avg = sum/count clause re-runs the same data)
 func c09Run(op *c09Op, fn string, parallelism int) (map[string]map[uint32]float64, error) {
+	return c09Run2(op, fn, parallelism, nil)
+}
+
+// … and, when agg2 is given, ApplyAggregationToResults with it on the aggregated results
+func c09Run2(op *c09Op, fn string, parallelism int, agg2 *structs.Aggregation) (map[string]map[uint32]float64, error) {
 	agg := structs.Aggregation{AggregatorFunction: c09Fns[fn], GroupByFields: op.fields, Without: op.without}
 	mq := &structs.MetricsQuery{
 		MetricName:      op.name,
@@ -245,6 +251,11 @@ func c09Run(op *c09Op, fn string, parallelism int) (map[string]map[uint32]float6
 	mres.MetricName = op.name
 	if errs := mres.AggregateResults(parallelism, agg); len(errs) > 0 {
 		return nil, errs[0]
+	}
+	if agg2 != nil {
+		if errs := mres.ApplyAggregationToResults(parallelism, *agg2); len(errs) > 0 {
+			return nil, errs[0]
+		}
 	}
 	return mres.Results, nil
 }
@@ -438,6 +449,8 @@ func execC09(line string) Result {
 		return execC09Gkey(f)
 	case "agg":
 		return execC09Agg(f)
+	case "agg2":
+		return execC09Agg2(f)
 	}
 	return Result{Out: "bad-op"}
 }
@@ -468,6 +481,45 @@ func execC09Gkey(f []string) Result {
 		tag = "gkey-without"
 	}
 	return Result{Out: "k=" + hex.EncodeToString([]byte(key)), Nontrivial: key != sid, Tags: []string{tag}}
+}
+
+// agg2 <fn1> by|without <fields1> <fn2> by|without <fields2> step=<s> M=<hex> S=…   (model correspondence only)
+func execC09Agg2(f []string) Result {
+	if len(f) != 10 {
+		return Result{Out: "bad-op", Tags: []string{"bad-op"}}
+	}
+	op, ok := c09ParseAgg(append([]string{"agg", f[1], f[2], f[3]}, f[7:]...))
+	if !ok || op.fn == "avg" {
+		return Result{Out: "bad-op", Tags: []string{"bad-op"}}
+	}
+	fn2, okf := c09Fns[f[4]]
+	if !okf {
+		return Result{Out: "bad-op", Tags: []string{"bad-op"}}
+	}
+	agg2 := &structs.Aggregation{AggregatorFunction: fn2}
+	switch f[5] {
+	case "by":
+	case "without":
+		agg2.Without = true
+	default:
+		return Result{Out: "bad-op", Tags: []string{"bad-op"}}
+	}
+	if agg2.GroupByFields, ok = c09ParseFields(f[6]); !ok {
+		return Result{Out: "bad-op", Tags: []string{"bad-op"}}
+	}
+	got, err := c09Run2(op, op.fn, 1+len(op.series)%4, agg2)
+	if err != nil {
+		return Result{Out: "err", Tags: []string{"err"}, Fails: []PropFail{{Sig: "promql-agg/error", Msg: err.Error()}}}
+	}
+	var toks []string
+	for g, ts := range got {
+		for t, v := range ts {
+			toks = append(toks, fmt.Sprintf("%s@%d=%s", hex.EncodeToString([]byte(g)), t, c09Rat(v)))
+		}
+	}
+	sort.Strings(toks)
+	return Result{Out: strings.Join(append([]string{"ok"}, toks...), " "), Nontrivial: len(op.series) >= 2 && len(toks) > 0,
+		Tags: []string{"agg2", "agg2-" + op.fn + "-" + f[4]}}
 }
 
 func execC09Agg(f []string) Result {
@@ -591,7 +643,7 @@ func execC09Agg(f []string) Result {
 		} else if sig == "" {
 			sig = "promql-agg/" + op.fn
 		}
-		res.Fails = append(res.Fails, PropFail{Sig: sig, Msg: fmt.Sprintf("%s %s(%d fields): result series %v are not the per-group aggregates %v of the label sets (%d PromQL groups, %d output groups)", op.fn, mode, len(op.fields), c09Keys(gotSigs), c09Keys(wantSigs), len(wantSigs), len(gotSigs))})
+		res.Fails = append(res.Fails, PropFail{Sig: sig, Msg: fmt.Sprintf("%s %s(%d fields): result series %v are not the per-group aggregates %v of the label sets (%d PromQL groups, %d output groups)", op.fn, mode, len(op.fields), c09Keys(gotSigs), c09Keys(wantSigs), c09Total(wantSigs), c09Total(gotSigs))})
 		return res
 	}
 	// (b) avg = sum / count and min ≤ avg ≤ max, on the same data through the same code
@@ -626,6 +678,9 @@ func execC09Agg(f []string) Result {
 				switch {
 				case op.without && len(op.fields) == 0:
 					sig = "promql-agg/count-without-empty-list"
+				case (!okS || !okC) && shape != "":
+					// sum/count filed their value under another key string (e.g. a '{' inside the metric name)
+					sig = shape
 				case multi:
 					sig = "promql-agg/avg-ne-sum-div-count/several-samples-per-bucket"
 				default:
@@ -637,6 +692,14 @@ func execC09Agg(f []string) Result {
 		}
 	}
 	return res
+}
+
+func c09Total(m map[string]int) int {
+	n := 0
+	for _, c := range m {
+		n += c
+	}
+	return n
 }
 
 func c09Keys(m map[string]int) []string {
@@ -693,6 +756,9 @@ func genC09(r *rand.Rand, n int, tier string) []string {
 				"gkey with - 6d7b",
 				"gkey by 6 6d7b",
 				"agg",
+				"agg2 avg by - sum by - step=10 M=6d S=-@5:1",
+				"agg2 sum by - med by - step=10 M=6d S=-@5:1",
+				"agg2 sum by - sum by - step=10 M=6d",
 				"promql",
 			}
 			out = append(out, bad[r.Intn(len(bad))])
@@ -872,6 +938,20 @@ func genC09(r *rand.Rand, n int, tier string) []string {
 		mode := "by"
 		if without {
 			mode = "without"
+		}
+		if fn != "avg" && r.Intn(6) == 0 { // nested aggregation: fn2 by|without (subset) (fn by|without (fields) (…))
+			var f2 []string
+			for _, k := range keys {
+				if r.Intn(3) == 0 {
+					f2 = append(f2, k)
+				}
+			}
+			mode2 := "by"
+			if r.Intn(3) == 0 {
+				mode2 = "without"
+			}
+			out = append(out, fmt.Sprintf("agg2 %s %s %s %s %s %s step=%d M=%s S=%s", fn, mode, c09HexFields(fields), fns[r.Intn(len(fns))], mode2, c09HexFields(f2), step, hex.EncodeToString([]byte(name)), ss))
+			continue
 		}
 		out = append(out, fmt.Sprintf("agg %s %s %s step=%d M=%s S=%s", fn, mode, c09HexFields(fields), step, hex.EncodeToString([]byte(name)), ss))
 	}
